@@ -221,3 +221,59 @@ Proof. reflexivity. Qed.
 
 Lemma glue_ok : gen_select_skeleton_ok = true /\ gen_agentset_glue_ok = true.
 Proof. split; reflexivity. Qed.
+
+(* ---------- GroupBy.count / GroupBy.agg: the dict comprehensions, translated ---------- *)
+Definition pairs_flat (l : list (Z * Z)) : list Z := flat_map (fun p => [fst p; snd p]) l.
+
+Lemma count_bridge g :
+  flat_map (fun e => [fst e; zlen (snd e)]) g = pairs_flat (gen_group_count g).
+Proof.
+  unfold pairs_flat, gen_group_count. induction g as [|[k v] rest IH]; [reflexivity|].
+  cbn [flat_map map fst snd app]. rewrite IH. reflexivity.
+Qed.
+
+Definition attr_or0 (t : table) (n : Z) (a : id) : Z := match attr_of t a n with Some v => v | None => 0 end.
+Definition agg_or0 (f : aggf) (vals : list Z) : Z := match agg_apply f vals with Some v => v | None => 0 end.
+
+Lemma all_some_default {A} (f : A -> option Z) l r :
+  all_some f l = Some r -> r = map (fun a => match f a with Some v => v | None => 0 end) l.
+Proof.
+  revert r. induction l as [|a t IH]; intros r H; simpl in H; [inversion H; reflexivity|].
+  destruct (f a) eqn:Ea; [|discriminate]. destruct (all_some f t) eqn:Et; [|discriminate].
+  inversion H. subst. simpl. rewrite Ea, <- (IH _ eq_refl). reflexivity.
+Qed.
+
+(* when GroupBy.agg returns, it returns what the translated comprehension computes *)
+Lemma agg_bridge t n f g : forall r,
+  group_agg t n f g = inl r -> r = pairs_flat (gen_group_agg (agg_or0 f) (attr_or0 t n) g).
+Proof.
+  unfold pairs_flat, gen_group_agg. induction g as [|[k mem] rest IH]; intros r H; simpl in H; [inversion H; reflexivity|].
+  destruct (all_some (fun a => attr_of t a n) mem) as [vals|] eqn:Ev; [|discriminate].
+  destruct (agg_apply f vals) as [v|] eqn:Ea; [|discriminate].
+  destruct (group_agg t n f rest) as [r'|e] eqn:Er; [|discriminate].
+  inversion H. subst r. cbn [flat_map map fst snd app]. rewrite <- (IH _ eq_refl).
+  apply all_some_default in Ev.
+  f_equal. f_equal. symmetry.
+  transitivity (match agg_apply f vals with Some x => x | None => 0 end); [subst vals; reflexivity|rewrite Ea; reflexivity].
+Qed.
+
+Lemma step_group_count_of_source st s k m ks :
+  members st s = Some m -> all_some (eval_key (st_tbl st) k) m = Some ks ->
+  let g := groupby_members (key_or0 (st_tbl st) k) m in
+  step st (GroupCount s k) = (st, ROk (zlen g :: pairs_flat (gen_group_count g))).
+Proof. intros Hm Hk g. rewrite <- count_bridge. apply (step_group_count st s k m ks Hm Hk). Qed.
+
+Lemma step_group_agg_of_source st s k n f m ks :
+  members st s = Some m -> all_some (eval_key (st_tbl st) k) m = Some ks ->
+  (forall a, In a m -> attr_of (st_tbl st) a n <> None) ->
+  let g := groupby_members (key_or0 (st_tbl st) k) m in
+  step st (GroupAgg s k n f) = (st, ROk (pairs_flat (gen_group_agg (agg_or0 f) (attr_or0 (st_tbl st) n) g))).
+Proof.
+  intros Hm Hk Hall g. destruct (step_group_agg st s k n f m ks Hm Hk) as [_ [_ Hok]].
+  rewrite (Hok Hall). f_equal. f_equal. fold g.
+  (* the model's value list is what group_agg returns *)
+  assert (exists r, group_agg (st_tbl st) n f g = inl r) as [r Hr].
+  { pose proof (Hok Hall) as Hs. unfold members in Hm. unfold step in Hs. cbv zeta in Hs. rewrite Hm, Hk in Hs. fold g in Hs.
+    destruct (group_agg (st_tbl st) n f g) as [r|e]; [exists r; reflexivity|discriminate]. }
+  rewrite <- (agg_bridge _ _ _ _ _ Hr). apply group_agg_ok in Hr. destruct Hr as [-> _]. reflexivity.
+Qed.
